@@ -90,14 +90,15 @@ def false_to_arithm(cx):
 
 @contract('program/condition/atom_cond.py', 'Atom.is_normalized', ['C03', 'C18'])
 def atom_is_normalized(cx):
-    sym, integer = cx.bool('poly1_is_Symbol'), cx.bool('poly2_is_Integer')
+    # normal form: <symbol> == <number>   (the number need not be an integer: values of finite types are arbitrary numbers, repaired in a33d8de)
+    sym, number = cx.bool('poly1_is_Symbol'), cx.bool('poly2_is_Number')
     cop = cx.str('cop')
     p1, p2 = cx.real('poly1'), cx.real('poly2')
     self = cx.obj('Atom', poly1=p1, poly2=p2, cop=cop)
     cx.param(self=self)
     cx.attr('is_Symbol', lambda ex, st, o: sym)
-    cx.attr('is_Integer', lambda ex, st, o: integer)
-    cx.ensures(lambda st, r: truthy(r) == z3.And(sym.t, integer.t, cop.t == z3.StringVal('==')))
+    cx.attr('is_Number', lambda ex, st, o: number)
+    cx.ensures(lambda st, r: truthy(r) == z3.And(sym.t, number.t, cop.t == z3.StringVal('==')))
 
 
 @contract('program/condition/atom_cond.py', 'Atom.is_reduced', ['C02', 'C18'])
